@@ -192,3 +192,59 @@ Proof.
           [reflexivity|]. apply last_cons_indep.
 Qed.
 End PCon.
+
+(* ---------------------------------------------------------------- the sweep with cp_normalize inside it (MU, HALS) on data *)
+Section PNormSweep.
+Context {F : Type} (Op : fops F).
+Hypothesis Rth : ring_theory (f0 Op) (f1 Op) (fadd Op) (fmul Op) (fsub Op) (fopp Op) (@eq F).
+Add Ring Frns : Rth.
+Variables (solve : nat -> tensor F -> list (tensor F) -> tensor F) (norm : nat -> @cpstate F -> @cpstate F) (normalize : bool) (X : tensor F) (R : nat).
+Hypothesis Hnorm_wf : normalize = true -> forall m st, length (snd st) = length (shape X) -> length (snd (norm m st)) = length (shape X).
+(* the state just before the LAST mode of a non-empty sweep is updated: every earlier step was followed by a normalisation *)
+Fixpoint ns_prefix (ms : list nat) (st : @cpstate F) : @cpstate F :=
+  match ms with
+  | [] => st
+  | m :: ms' => let st1 := fst (ns_step Op solve X R m st) in ns_prefix ms' (if normalize then norm m st1 else st1)
+  end.
+Lemma norm_sweep_cons m l st M : l <> [] ->
+  norm_sweep Op solve norm normalize X R (m :: l) st M
+  = norm_sweep Op solve norm normalize X R l (let st1 := fst (ns_step Op solve X R m st) in if normalize then norm m st1 else st1)
+               (Some (snd (ns_step Op solve X R m st))).
+Proof. intros Hl. destruct l; [contradiction | reflexivity]. Qed.
+Lemma norm_sweep_app n : forall ms st M,
+  norm_sweep Op solve norm normalize X R (ms ++ [n]) st M
+  = (let r := ns_step Op solve X R n (ns_prefix ms st) in (fst r, Some (snd r))).
+Proof.
+  induction ms as [|m ms IH]; intros st M; [reflexivity|].
+  cbn [app ns_prefix]. rewrite norm_sweep_cons by (intros H; destruct ms; discriminate). apply IH.
+Qed.
+Lemma ns_prefix_wf : forall ms st, length (snd st) = length (shape X) -> length (snd (ns_prefix ms st)) = length (shape X).
+Proof.
+  induction ms as [|m ms IH]; intros st Hw; [exact Hw|]. cbn [ns_prefix]. apply IH.
+  assert (H1 : length (snd (fst (ns_step Op solve X R m st))) = length (shape X)) by (cbn; now rewrite set_nth_length).
+  destruct normalize eqn:E; [now apply Hnorm_wf | exact H1].
+Qed.
+Theorem norm_sweep_reports_true_error ms st : length (snd st) = length (shape X) -> (ms = [] \/ last ms 0 < length (shape X)) ->
+  norm_sweep_error Op solve norm normalize X R ms st
+  = (let st' := fst (norm_sweep Op solve norm normalize X R ms st None) in err_cp_true Op X R (fst st') (snd st') None None).
+Proof.
+  intros Hw Hms. unfold norm_sweep_error.
+  destruct Hms as [-> | Hlast]; [reflexivity|].
+  destruct ms as [|m0 ms0]; [reflexivity|].
+  destruct (exists_last (l := m0 :: ms0)) as (ms1 & n & E); [discriminate|]. rewrite E in *.
+  rewrite last_last in *. rewrite norm_sweep_app. cbv zeta. cbn [fst snd].
+  set (st1 := ns_prefix ms1 st).
+  assert (HL1 : length (snd st1) = length (shape X)) by (unfold st1; now apply ns_prefix_wf).
+  unfold ns_step. cbn [fst snd].
+  set (Mt := mttkrp_data Op X R (fst st1) (snd st1) n).
+  set (fs2 := set_nth n (solve n Mt (snd st1)) (snd st1)).
+  assert (HL2 : length fs2 = length (shape X)) by (unfold fs2; now rewrite set_nth_length).
+  unfold err_shortcut_with, err_cp_true. rewrite (err_explicit_plain Op Rth). f_equal.
+  change (dist2 Op (shape X) (tfun Op X) (cp_tensor_entry Op R (fst st1) fs2)) with (err2_true Op (shape X) (tfun Op X) R (wfun Op (fst st1)) (colsT Op fs2)).
+  rewrite <- (err2_fast_correct Op Rth (shape X) (tfun Op X) R (wfun Op (fst st1)) (wfun Op (fst st1)) (ones Op) (colsT Op fs2) n Hlast).
+  - unfold err2_fast, err2_fast_with. f_equal. f_equal. unfold iprod. apply S_ext; intros r Hr. f_equal.
+    apply S_ext; intros i Hi. f_equal. unfold Mt, fs2. now apply mttkrp_data_after_update.
+  - intros r _. now rewrite colsT_length.
+  - intros r _. unfold ones. ring.
+Qed.
+End PNormSweep.
